@@ -178,18 +178,47 @@ func (c *Ctx) exhaustEdge(b *cfg.Block, succ int) bool {
 	return false
 }
 
-// loopExitEdge: false edge of a for-loop condition of the form X.pointer != nil.
+// loopExitEdge: an edge on which the descent cursor is known to be empty – the false edge of a
+// loop condition `cursor.pointer != nil`, or the same test written after the loop. The cursor is a
+// *nodeRef variable that points at a slot the descent reached through findChild (never the tree's
+// root field, whose emptiness is the legitimate "empty tree" case).
 func (c *Ctx) loopExitEdge(b *cfg.Block, succ int) bool {
-	if b.Kind != cfg.KindForLoop || succ != 1 {
+	info := c.m.Info
+	cond := condOf(info, b)
+	if cond == nil {
 		return false
 	}
-	cond := condOf(c.m.Info, b)
-	be, ok := ast.Unparen(cond).(*ast.BinaryExpr)
-	if !ok || be.Op != token.NEQ {
-		return false
+	for _, a := range impliedAtoms(cond, succ == 0) {
+		be, ok := ast.Unparen(a.e).(*ast.BinaryExpr)
+		if !ok || (be.Op != token.NEQ && be.Op != token.EQL) {
+			continue
+		}
+		isNil := (be.Op == token.EQL) == a.val // the atom says "== nil"
+		if !isNil {
+			continue
+		}
+		x, y := be.X, be.Y
+		if info.Types[x].IsNil() {
+			x, y = y, x
+		}
+		if !info.Types[y].IsNil() {
+			continue
+		}
+		sel, ok := ast.Unparen(x).(*ast.SelectorExpr)
+		if !ok || sel.Sel.Name != "pointer" {
+			continue
+		}
+		if b.Kind == cfg.KindForLoop {
+			return true
+		}
+		// outside a loop header: only a pointer-typed cursor variable
+		if v := identVar(info, sel.X); v != nil {
+			if _, isPtr := v.Type().Underlying().(*types.Pointer); isPtr && c.isNodeRefType(v.Type()) {
+				return true
+			}
+		}
 	}
-	sel, ok := ast.Unparen(be.X).(*ast.SelectorExpr)
-	return ok && sel.Sel.Name == "pointer" && c.m.Info.Types[be.Y].IsNil()
+	return false
 }
 
 // R03 INSPATH, R04 DELPATH, R14 SIZEWRITERS.
